@@ -1384,6 +1384,28 @@ Proof.
   - rewrite (frame h _ st2 la Hw1 ltac:(cbn [alloc next]; lia) Hu He). exact H2.
 Qed.
 
+(* the same for maps: `m.clone()` is a new map with the entries its original has at that moment *)
+Theorem map_clone_independent : forall st a c st1 o1, wf st -> step false st (MapClone c a) = Ok (st1, o1) ->
+  exists la kv,
+    get_map st a = Ok (la, kv) /\ eget (env st1) c = Some (next st) /\ la <> next st /\
+    hget (hp st1) (next st) = Some (CMap kv) /\ hget (hp st1) la = Some (CMap kv) /\
+    (forall h st2, untouched (next st) st1 h -> exec st1 h = Some st2 -> hget (hp st2) (next st) = Some (CMap kv)) /\
+    (forall h st2, untouched la st1 h -> exec st1 h = Some st2 -> hget (hp st2) la = Some (CMap kv)).
+Proof.
+  intros st a c st1 o1 Hw H. pose proof (step_wf _ _ _ _ Hw H) as [Hw1 _]. cbn [step] in H.
+  destruct (get_map st a) as [[la kv]|] eqn:E; cbn [bind snd] in H; [|discriminate]. inversion H; subst; clear H.
+  destruct (get_map_inv _ _ _ _ E) as [Ee Eh]. pose proof (wf_lt _ _ _ Hw Eh) as Hlt.
+  exists la, kv. split; [reflexivity|]. split; [cbn [alloc env eget]; rewrite N.eqb_refl; reflexivity|].
+  split; [lia|].
+  assert (H1 : hget (hp (alloc st c (CMap kv))) (next st) = Some (CMap kv)).
+  { cbn [alloc hp]. rewrite hget_hset, N.eqb_refl. reflexivity. }
+  assert (H2 : hget (hp (alloc st c (CMap kv))) la = Some (CMap kv)).
+  { cbn [alloc hp]. rewrite hget_hset. destruct (next st =? la) eqn:E2; [apply N.eqb_eq in E2; lia | exact Eh]. }
+  split; [exact H1|]. split; [exact H2|]. split; intros h st2 Hu He.
+  - rewrite (frame h _ st2 (next st) Hw1 ltac:(cbn [alloc next]; lia) Hu He). exact H1.
+  - rewrite (frame h _ st2 la Hw1 ltac:(cbn [alloc next]; lia) Hu He). exact H2.
+Qed.
+
 (* ---------------------------------------------------------------- the behaviour before the fixes refutes the property *)
 
 (* a.join(b) emptied b (Vec::append) *)
